@@ -103,9 +103,9 @@ CHECKS.update({
          "ICS-20 and the erc20/werc20 precompiles are not exercised (no IBC channel in this profile); staking rewards exist in 60 % of the runs (coinomics on; fees are zero), contracts hold stake themselves in half of them; per-account attribution relies on supply + actor balances, not on bank events.",
          "DESIGN.md §4 C02"),
  "C04": ("exploration",
-         "deterministic simulation: FIC programs and direct calls exercising staking/distribution precompile methods under every identity relation, with a seeded grant life cycle (approve / increase / decrease / revoke, limited and unlimited, several message types) and spends through contracts incl. re-entrancy and frame failures; non-interference + grant-gate + allowance-arithmetic oracle from pre/post state",
+         "deterministic simulation: FIC programs and direct calls exercising staking/distribution precompile methods under every identity relation, with a seeded grant life cycle (approve / increase / decrease / revoke, limited and unlimited, several message types; staking, distribution and ICS-20 precompiles) and spends through contracts incl. re-entrancy and frame failures; non-interference + grant-gate + allowance-arithmetic oracle from pre/post state",
          "For every account that is neither the signer nor the immediate caller of a committed state-changing precompile call: delegations, unbondings, redelegations, withdraw address and grants-as-granter unchanged and balance not decreased. A staking spend committed by a contract requires a grant from the signer to that contract in the pre-state covering type and amount; and, when the grant names validators, the validator the message is checked against; afterwards a limited grant is reduced by exactly the amounts used (deleted at zero, never exceeded); approve/increase/decrease/revoke set exactly the stated allowance.",
-         "Effects that survive a failed frame (finding C05-001) are attributed to C05 and skipped here; ICS-20 allocations (grants of the ics20 precompile) are not exercised; clock jumps of more than a year make every allowance expire in some runs (an expired grant is no grant in the pre-state, so a spend under it is reported).",
+         "Effects that survive a failed frame (finding C05-001) are attributed to C05 and skipped here; A tenth of the runs are ICS-20 runs on the two-chain world: allocation life cycle (approve / increase / decrease / revoke per channel, denomination limits, receiver allow lists), transfers by contracts for the signer, for themselves and for third parties, with the same authority, allowance-arithmetic and non-interference oracles; clock jumps of more than a year make every allowance expire in some runs (an expired grant is no grant in the pre-state, so a spend under it is reported).",
          "DESIGN.md §4 C04"),
  "C05": ("exploration",
          "deterministic simulation with frame-failure injection: for every sampled FIC program the block boundary is forked twice; fork A runs the program, fork B runs it with every frame that failed in A replaced by a stub that fails without doing anything; per-store content, logs and outcome compared (pruned-program fork differential); regimes with disposable self-destructing contracts and with few storage keys/values (frames restore each other's and the committed values)",
@@ -118,7 +118,7 @@ CHECKS.update({
  "C16": ("exploration",
          "deterministic simulation: seeded staking/distribution histories with slashing, unbondings and redelegations in flight; at seeded boundaries a native-message fork and a precompile-call fork of the same disk are executed and their committed stores compared (fork differential); read-only precompile methods compared with module state at simulated states",
          "For every sampled (method, arguments incl. zero / above balance / huge / invalid validator, state) the owner's native message and the owner's direct precompile call are executed on two forks of the same block boundary: both must succeed or both fail, and the staking, distribution, slashing, authz, bank, gov, ibc/transfer/capability and Haqq module stores must be identical afterwards (fees are zero; evm/feemarket/acc ignored). Read-only methods (staking delegation, unbondingDelegation, validator, validators by status, redelegation, allowance; distribution delegationRewards, delegationTotalRewards, delegatorValidators, delegatorWithdrawAddress, validatorCommission, validatorOutstandingRewards; bank balances, totalSupply) are decoded and compared field by field with the modules' own state.",
-         "ICS-20 transfer, claimRewards (no single native equivalent), redelegations pagination, validatorSlashes/DistributionInfo and supplyOf are not compared; DecCoin outputs are compared on their integer part (the ABI carries a truncated amount with precision 18). Rewards exist in 70 % of the runs (coinomics).",
+         "createValidator is part of the differential (also for vesting accounts); ICS-20 transfer, claimRewards (no single native equivalent), redelegations pagination, validatorSlashes/DistributionInfo and supplyOf are not compared; DecCoin outputs are compared on their integer part (the ABI carries a truncated amount with precision 18). Rewards exist in 70 % of the runs (coinomics).",
          "DESIGN.md §4 C16"),
 })
 
